@@ -474,6 +474,16 @@ func (c *FnCtx) instr(in ssa.Instruction, bv *BlockVC) {
 		md, mv := c.mapArrs(x.Map.Type())
 		c.setArr(st, md, sStore(c.arrIn(st, md), m.T, sStore(sSel(c.arrIn(st, md), m.T), k.T, "true")))
 		c.setArr(st, mv, sStore(c.arrIn(st, mv), m.T, sStore(sSel(c.arrIn(st, mv), m.T), k.T, v.T)))
+		// a map held in a field with a (content) invariant: the invariant is re-established after the update
+		if ld, ok := x.Map.(*ssa.UnOp); ok {
+			if fi := c.fieldInvFor(nil, ld.X); fi != nil {
+				if fa := ld.X.(*ssa.FieldAddr); c.V.ModPkgs[pkgOfType(derefType(fa.X.Type()))] {
+					env := &SEnv{c: c, st: c.cur, old: c.entry, vars: map[string]Val{"v": m}, bound: map[string]bool{}}
+					ob := c.assert(c.curItems, "fieldinv", "fieldinv", fi.Type+"."+fi.Field+" (after map update)", env.trGoal(fi.E), in, nil, true)
+					ob.Text = fi.Text
+				}
+			}
+		}
 	case *ssa.Lookup:
 		c.lookup(x)
 	case *ssa.Slice:
@@ -531,7 +541,7 @@ func (c *FnCtx) unop(x *ssa.UnOp) {
 			c.assume(c.curItems, c.typeFacts(v, c.entry))
 			c.note("package-level variables never assigned outside init are constants")
 			for _, gi := range c.V.DB.GlobalInvs {
-				if gi.Field == g.Name() && c.fn.Synthetic != "package initializer" {
+				if (gi.Field == g.Name() || gi.Field == g.Pkg.Pkg.Name()+"."+g.Name()) && c.fn.Synthetic != "package initializer" {
 					env := &SEnv{c: c, st: c.cur, old: c.entry, vars: map[string]Val{"v": v}, bound: map[string]bool{}}
 					c.assume(c.curItems, env.trAssume(gi.E))
 				}
